@@ -278,6 +278,25 @@ def run(prog, rep):
                   "`attr` → AddGraphNodeAttribute / AddEdgeAttribute", "keyword `attr` builds %s" % sorted(got))
     else:
         rep.violation("E7.s", "anchor-lost:parse_statement", "", "not found")
+    # ---- E7.q sequences
+    rep.rule("E7.q", "parse_sequence: every element is parsed only after the next character was compared with the end marker (an empty remainder — `[a,]` — is a valid sequence)")
+    psq = [f for f in pf if f.name == "parse_sequence"]
+    if len(psq) == 1:
+        f = psq[0]
+        body, tr = f.body, Tracer(f.body)
+        pe = [(b, t) for b, t in body.calls() if is_callee(t, r"Parser::<'a>::parse_expression$")]
+        ok = bool(pe)
+        for b, t in pe:
+            gs = []
+            for g in dominating_guards(body, tr, b):
+                m = re.match(r"^\(\(Try::branch\(Parser::peek\(&\*arg:self\)\) as Continue\)\.0 (Ne|Eq) arg:end_marker\)$", canon(g.cond))
+                if m and g.value is (m.group(1) == "Ne"):
+                    gs.append(g)
+            if not gs:
+                ok = False
+        rep.check(ok, "E7.q", "parse_sequence :: element guarded by end-marker test", f.loc(), "while peek()? != end_marker { parse_expression … }", "parse_sequence parses an element without first testing for the end marker: a trailing comma after a single element is rejected")
+    else:
+        rep.violation("E7.q", "anchor-lost:parse_sequence", "", "not found")
     # ---- E7.e escapes
     rep.rule("E7.e", "string escapes: \\0 \\n \\r \\t map to the control characters, every other escaped character to itself")
     pstr = [f for f in pf if f.name == "parse_string"]
